@@ -882,7 +882,7 @@ func init() {
 			if tier == "thorough" {
 				l = "7"
 			}
-			return "totality: every byte string of length <= " + l + " over a 12-value alphabet into the six parsers (delivery message, section-management list content, result content, sub-list contents, section contents, sub-result contents), all 256 message types, and the <=2-mutation neighbourhood of valid encodings of every message kind; round trip: command messages with 0..2 sublists x 0..2 instructions x 0..2 policy parts (content lengths 0,1,2,300) with and without classmark, complete with every PTI, reject with 0..2 sub-results x 0..2 results, nested lists alone, all built through the API only, lists serialised again after their part contents were replaced through the API, and lists built with one reused builder value for all parts; PLMN: every MCC 100..999 x every MNC 10..999. Oracle: no panic; encoded bytes equal a reference encoder (every length field = length of what follows, PLMN per TS 24.008 10.5.1.3 as produced by nasConvert.PlmnIDToNas); decode(encode(m)) yields the same structure."
+			return "totality: every byte string of length <= " + l + " over a 12-value alphabet into the six parsers (delivery message, section-management list content, result content, sub-list contents, section contents, sub-result contents), all 256 message types, and the <=2-mutation neighbourhood of valid encodings of every message kind; round trip: command messages with 0..2 sublists x 0..2 instructions x 0..2 policy parts (content lengths 0,1,2,300) with and without classmark, complete with every PTI, reject with 0..2 sub-results x 0..2 results, nested lists alone, all built through the API only, lists serialised again after their part contents were replaced through the API, and lists built with one reused builder value for all parts; PLMN: every MCC 100..999 x every MNC 10..999. Oracle: no panic; encoded bytes equal a reference encoder (every length field = length of what follows, PLMN per TS 24.008 10.5.1.3 as produced by nasConvert.PlmnIDToNas); decode(encode(m)) yields the same structure. Histories: every truncation and every 12-value replacement of the valid encodings through its parser — alone, followed by a successful parse, and in pairs of truncations — followed by a probe of each message kind judged like a fresh round trip (results must not depend on earlier calls, in particular not on parses that stopped with an error). Serialiser hygiene on list / result-list cases: structure unchanged by MarshalBinary, second serialisation after the caller overwrote the first result gives the same octets, result survives serialising another list. Parser inputs sit in a guarded buffer (spare capacity, canaries) that must be unchanged."
 		},
 		Assumptions: []string{"result causes are normalised to 'protocol error, unspecified' by the encoder itself"},
 		Finish:      finishDistinct("distinct by (parser, input octets) / message description / PLMN; non-trivial = raw inputs of at least three octets, messages with at least one sublist or sub-result, every PLMN"),
